@@ -14,6 +14,15 @@ def contRun : ContState → List Chunk → Nat → Nat × Option Err
     | .error e => (n, some e)
     | .ok s' => contRun s' cs (n + 1)
 
+def parseCols (s : String) : Option Cols :=
+  (splitList s ";").mapM fun tok =>
+    match tok.splitOn ":" with
+    | [k, v] => do let vs ← parseInts v; pure (k, vs)
+    | _ => none
+
+def showCols (c : Cols) : String :=
+  if c.isEmpty then "-" else ";".intercalate (c.map fun (k, v) => s!"{k}:{showInts v}")
+
 /-- ops of theories T1/T2 (chunk algebra). -/
 def handleC07 : List String → Option String
   | ["split", rows, t, early] => do
@@ -45,6 +54,9 @@ def handleC07 : List String → Option String
     let s ← parseBool sup; let cs ← cs.mapM parseRawChunk
     pure <| showExcept showChunks
       (rawChunksToChunks cs >>= fun cs => rechunkAll Generated.getSplitsArgmin0 ⟨true, s, none⟩ cs)
+  | "mergearrs" :: arrs => do
+    let arrs ← arrs.mapM parseCols
+    pure s!"ok {showCols (mergeArrs arrs)}"
   | "continuity" :: cs => do
     let cs ← cs.mapM parseRawChunk
     pure <| match rawChunksToChunks cs with
